@@ -62,8 +62,9 @@ JudgeTW(c) ==
     Cl("C19.result", valid, c.out = "ok" /\ c.res = TroughWells(c.n, ws)),
     Cl("C19.length", valid /\ c.out = "ok", Len(c.res) = c.n),
     \* a whole-valued float (3.0): refusing it and treating it as 3 are both in keeping with "non-integer n is rejected"
-    Cl("C19.reject", ~valid /\ c.ncls # "intfloat", c.out # "ok"),
-    Cl("C19.foreign", c.ncls = "intfloat" /\ c.n >= 0 /\ Len(ws) > 0 /\ c.out = "ok", c.res = TroughWells(c.n, ws))
+    Cl("C19.reject", ~valid /\ c.ncls \notin {"intfloat", "np8", "npu8"}, c.out # "ok"),
+    \* (likewise numpy integers: today refused as "not an int"; if taken, taken for their value)
+    Cl("C19.foreign", c.ncls \in {"intfloat", "np8", "npu8"} /\ c.n >= 0 /\ Len(ws) > 0 /\ c.out = "ok", c.res = TroughWells(c.n, ws))
   }
 
 (***************************************************************************)
